@@ -505,6 +505,11 @@ pub fn decode(bytes: &[u8]) -> Option<Case> {
     let efg = s.bool();
     let mode = s.weighted(&[5, 3]);
     let (mut tree, _family) = gen_tree(&mut s, &mut gs, efg);
+    if !efg && cli::json_nesting(&tree) > 110 {
+        // known finding F17 (reported by C15): such a document is refused as a whole, whatever else
+        // is wrong with it
+        return None;
+    }
     let explicit_format = s.bool();
     let via_stdin = s.chance(64);
     let to_file = s.chance(64);
